@@ -16,8 +16,9 @@ Open Scope Z_scope.
    findings: the mask selects exactly the returned values (no duplication, no
    alteration), has the length of the input, the number of selected events is
    min(request, eligible) (request 0 = all eligible), eligible = valid events
-   if remove_invalid else all events, and with remove_invalid only valid
-   events are selected. Guards: no axis whose valid values are all equal
+   if remove_invalid else all events, the number of valid events among them
+   is min(request, valid) in both modes (invalid events only fill up), and
+   with remove_invalid only valid events are selected. Guards: no axis whose valid values are all equal
    when the grid step runs (C16-grid-constant-axis) and request <= N when
    remove_invalid is False (C16-grid-pad-overrequest). *)
 Theorem C16_grid_subset_count_partial :
@@ -33,6 +34,8 @@ Theorem C16_grid_subset_count_partial :
         length keep = length a /\
         count_true keep = spec_count samples
                             (if ri then count_true (good_mask a b) else zlen a) /\
+        count_true (map2 andb keep (good_mask a b))
+        = spec_count samples (count_true (good_mask a b)) /\
         (ri = true -> subset_mask keep (good_mask a b) = true).
 Proof. exact grid_count. Qed.
 Print Assumptions C16_grid_subset_count_partial.
@@ -99,6 +102,26 @@ Theorem C16_limit_events_subset_count :
                         else count_true arr_all).
 Proof. exact limit_count. Qed.
 Print Assumptions C16_limit_events_subset_count.
+
+(* Filter.update step 4: filter.all is the conjunction of the box, invalid,
+   polygon and manual filters cut down to the event limit; all events when
+   filters are disabled. *)
+Theorem C16_filter_all_subset_count :
+  forall (rng : Type) (seed47 : rng) (choice_st : rng -> Z -> Z -> list Z * rng),
+    choice_ok seed47 choice_st ->
+    forall (g : rng) (box invalid polygon manual : list bool) (enable : bool)
+           (limit : Z),
+      let comb := map2 andb (map2 andb (map2 andb box invalid) polygon) manual in
+      exists m g',
+        filter_all rng seed47 choice_st g box invalid polygon manual enable limit
+        = (inl m, g') /\
+        (enable = false -> m = ones box) /\
+        (enable = true ->
+         subset_mask m comb = true /\
+         count_true m = (if limit >? 0 then Z.min limit (count_true comb)
+                         else count_true comb)).
+Proof. exact filter_all_count. Qed.
+Print Assumptions C16_filter_all_subset_count.
 
 (* get_downsampled_scatter(ret_mask=True): the mask has len(ds) entries, lies
    inside filter.all, selects exactly the returned x and y values of the
